@@ -3,6 +3,7 @@ import GSProofs.Lemmas.PauseResponder
 import GSProofs.Lemmas.PauseRequestor
 import GSProofs.Lemmas.PauseConservative
 import GSProofs.Lemmas.PauseWalk
+import GSProofs.Lemmas.PauseEarly
 import GSProofs.C01
 /-!
 # C06 — Pausing and resuming an exchange does not change its result
@@ -40,7 +41,9 @@ uninterrupted runs), `pause_resume_walk` / `pause_resume_store_sound` / `pause_r
 pauses: what the request reports is still a depth-first walk of the link tree with verified blocks: a
 pause or an early resume can cut a request short with an error, never make it deliver or store wrong
 data), `ingest_offline_noop`, `stale_dropped`, `stale_dropped_run`, `paused_offline` (an invariant of every
-history), `pause_effects`, `reopen_fresh`, `requestor_pause_resume_local` (the requestor's own store
+history), `pause_effects`, `reopen_fresh`, `requestor_pause_resume_before_online` (pause while the request is still in its local phase, resumed
+before the response arrives: identical to the uninterrupted exchange for every message list),
+`requestor_pause_resume_local` (the requestor's own store
 covers the traversal: any number of pauses, by hook at any block indices or through the API, and any
 resume timing give exactly the uninterrupted result), and the regression
 `stale_queue_regression` for the defect fixed in /repo b4f998f.
@@ -393,6 +396,33 @@ theorem requestor_pause_resume_local (st : List (Cid × Blk)) (lt : LT) (u : Nat
     (res.1.R.phase = .finished →
       PauseResume.blocksOf res.2 = PauseResume.blocksOf base.2 ∧ delivered res.2 = delivered base.2) :=
   local_pause_resume st lt u hookAt ops hops hc
+
+/-! ### a pause before the request has gone to the network -/
+
+/-- **C06.requestor_pause_resume_before_online.**  The block hook pauses the request after a block that
+    still came from the requestor's own store (all of `pre`, any length ≥ 1, is held locally — the
+    request has not been sent yet), and the request is resumed before the responder's messages arrive.
+    Then for EVERY list of response messages the exchange ends in exactly the requestor state of the
+    uninterrupted exchange, and reports the same blocks, missing-block errors, other errors, delivered
+    nodes and request messages (plus the one cancel message of the pause). -/
+theorem requestor_pause_resume_before_online (st : List (Cid × Blk)) (pre post : LT) (u : Nat)
+    (hpre : pre ≠ []) (hhas : ∀ n ∈ pre, has st n = true) (msgs : List Requestor.Msg) :
+    let res := PauseResume.exchange st (pre ++ post) u [pre.length] (PauseResume.Op.unpause :: msgs.map toOp)
+    let base := Requestor.exchange st (pre ++ post) u msgs
+    res.1.R = base.1 ∧ res.1.paused = false ∧
+    PauseResume.blocksOf res.2 = PauseResume.blocksOf base.2 ∧ missingOf res.2 = missingOf base.2 ∧
+    hardErrs res.2 = hardErrs base.2 ∧ delivered res.2 = delivered base.2 ∧ sentNews res.2 = sentNews base.2 := by
+  intro res base
+  obtain ⟨tail, h1, h2⟩ := early_pause st pre post u hpre hhas msgs
+  have hr : res = (hooked [pre.length] base.1, localEvs pre 0 ++ [Ev.sentCancel] ++ tail) := h1
+  have hb : base.2 = localEvs pre 0 ++ tail := h2
+  rw [hr, hb]
+  refine ⟨rfl, rfl, ?_, ?_, ?_, ?_, ?_⟩
+  · simp [blocksOf_append, PauseResume.blocksOf]
+  · simp [missingOf_append, missingOf]
+  · simp [hardErrs_append, hardErrs]
+  · simp [delivered_append, delivered]
+  · simp [sentNews_append, sentNews]
 
 /-! ### regression for the defect fixed in /repo b4f998f, and the counterexamples -/
 
